@@ -992,6 +992,8 @@ def codec_stream(ctx, drivers, ns, label, specs, n_values, n_invalid, n_strings)
             if not ref:
                 continue
             for r, a in items:
+                if "unknown-code" in a or "unknown-code" in ref[0] or "undocumented-code" in a:
+                    continue        # an undocumented return code is reported as such above; the two shims only spell it differently
                 if a != ref[0] and not a.startswith("crash:"):
                     fail({"kind": "prior-state-influence", "target": t.name, "construct": "deserialize-" + ("reused-object" if r["role"].startswith("de2") else "poisoned-object")},
                          f"{t.name}: deserializing the same bytes gives a different outcome when the destination held something else before",
@@ -1436,7 +1438,7 @@ def prims_cases(ctx):
                     for sg in "ui":
                         out.append((f"get{sg}{w} {h} {size} {off} {n}", f"x.get{sg}{w} {h} {off} {n}"))
             for n in setlens:
-                val = rng.choice([(1 << 64) - 1, 0, rng.getrandbits(64), rng.getrandbits(n) if n else 0])
+                val = rng.choice([(1 << 64) - 1, 0, rng.getrandbits(64), rng.getrandbits(min(n, 64)) if n else 0])     # a uint64_t argument
                 out.append((f"setu {h} {size} {off} {val} {n}", f"x.setu {h} {off} {val} {n}"))
                 ival = rng.choice([-1, 0, -(1 << 63), (1 << 63) - 1, rng.getrandbits(64) - (1 << 63)])
                 out.append((f"seti {h} {size} {off} {ival} {n}", f"x.seti {h} {off} {ival} {n}"))
